@@ -70,7 +70,7 @@ def gen_io_workload(rng, inexpressible=None):
     n_par3 = rng.randint(1, 3) if idx["R3"] else rng.choice([0, 0, 1])
     par3 = {}
     for _ in range(n_par3):
-        pid = rng.choice([0, 1, 2, 5, 17, 1000])
+        pid = rng.choice([0, 1, 2, 5, 17, 1000, -1, -7, 2**33, 2**62])
         if pid in par3:
             continue
         off = graphs.make_pose("SE3", [val(), val(), val()] + simio.unit_quat(rng))
@@ -263,7 +263,7 @@ class C13(OptEngineBase):
                     ops.append({"op": "export", "path": rng.choice(paths)})
                     first_path = ops[-1]["path"]
                     for _ in range(rng.randint(1, 2)):
-                        ops.append({"op": "mutate", "what": rng.choice(["information", "estimate", "vertex", "param", "raw_heading", "offset_inplace"]), "k": rng.randrange(1000),
+                        ops.append({"op": "mutate", "what": rng.choice(["information", "estimate", "vertex", "vertex_inplace", "param", "raw_heading", "offset_inplace", "recreate"]), "k": rng.randrange(1000),
                                     "scale": rng.choice([2.0, 0.5, 3.0, 1.0 + 2.0 ** -40])})
                     if rng.random() < 0.6:
                         # the file written before the change must still load to what it was written from
@@ -375,6 +375,21 @@ class C13(OptEngineBase):
                         vals = [xf(x) for x in spec["v"]]
                         vals[1] = vals[1] * sc - 0.125
                         v.pose = graphs.make_pose(spec["t"], vals)
+                        done = True
+                    elif what == "vertex_inplace" and g._vertices:
+                        # the owner overwrites the numbers of a vertex pose in place (same object)
+                        v = g._vertices[op["k"] % len(g._vertices)]
+                        v.pose[0] = float(v.pose[0]) * sc - 0.125
+                        v.pose[1] = float(v.pose[1]) + 0.75
+                        done = True
+                    elif what == "recreate":
+                        # the graph goes through pickle / deepcopy before it is exported (checkpoint, worker process)
+                        import pickle
+
+                        g = pickle.loads(pickle.dumps(g)) if op["k"] % 2 == 0 else copy.deepcopy(g)
+                        res.n_checks += 1
+                        if not dry and graphs.spec_of_graph(g) != origin and cycles_since_origin == 0:
+                            pass
                         done = True
                     elif what == "offset_inplace":
                         # the owner edits the offset of one landmark edge in place (for a 2-D edge this makes the graph
